@@ -389,7 +389,7 @@ Proof.
 Qed.
 
 Lemma fit_collect_spec prefix n : forall s,
-  (fit_size s < n)%nat -> Inv prefix s -> fit_collect n prefix s = spec_rest prefix s.
+  (fit_size s < n)%nat -> Inv prefix s -> fit_collect n prefix s = Some (spec_rest prefix s).
 Proof.
   induction n as [|n IH]; intros s Hn I; [lia|].
   cbn [fit_collect].
@@ -397,7 +397,7 @@ Proof.
   destruct (fit_next (S (fit_size s)) prefix s) as [| |kv s']; cbn in H.
   - contradiction.
   - now rewrite H.
-  - destruct H as (E & I' & L). rewrite E. f_equal. apply IH; auto. lia.
+  - destruct H as (E & I' & L). rewrite E. rewrite IH; auto. lia.
 Qed.
 
 (* ---------- init ---------- *)
@@ -428,7 +428,7 @@ Theorem flu_iterate_spec (o : tree) (mu : kvmap) (prefix start : okey) :
   flu_iterate o (kv_iterate mu (ob prefix) (ob start)) prefix start =
   kv_iterate (merge_overlay o mu) (ob prefix) (ob start).
 Proof.
-  intros So Su. unfold flu_iterate.
+  intros So Su. unfold flu_iterate, flu_iterate_opt.
   set (p := ob prefix). set (s := ob start).
   rewrite tree_init_filter by auto.
   set (s0 := {| f_tree := sm_filter (lex_leb (p ++ s)) o; f_par := kv_iterate mu p s; f_prev := None |}).
